@@ -5,6 +5,8 @@
 import ChialispModel.Drv.Base
 import ChialispModel.Drv.Conv
 import ChialispModel.Drv.Src
+import ChialispModel.Drv.Atomic
+import ChialispModel.Drv.Deps
 import ChialispModel.Drv.Step
 import ChialispModel.Drv.Cldb
 import ChialispModel.Drv.CoreDrv
@@ -15,6 +17,8 @@ def main (args : List String) : IO UInt32 := do
   | ["base"] => Drv.Base.run; return 0
   | ["conv"] => Drv.Conv.run; return 0
   | ["src"] => Drv.Src.run; return 0
+  | ["atomic"] => Drv.Atomic.run; return 0
+  | ["deps"] => Drv.Deps.run; return 0
   | ["step"] => Drv.Step.run; return 0
   | ["cldb"] => Drv.Cldb.run; return 0
   | ["core"] => Drv.CoreDrv.run; return 0
